@@ -4,7 +4,8 @@
    binaries - every binary in conservative mode -, targets with a kept label, named targets, subincludes),
    closed under "depends on" and under "is a test of a kept target that is not test_only";
    uses t f = f is a source or data file of t, or lies inside a directory t lists. *)
-From PlzV Require Import Base.Harness Model.C25 Proof.C25_Spec Proof.C25.
+From Coq Require Import Permutation.
+From PlzV Require Import Base.Harness Model.C25 Proof.C25_Spec Proof.C25 Proof.C25_PkgMap.
 
 Definition C25_statement : Prop :=
   forall (g : graph) (a : args) (removed : list label) (srcs : list str),
@@ -47,10 +48,38 @@ Definition C25_partial_statement : Prop :=
         hidden_chain g t hs x -> Kept0 g a (t_label x) -> t_test_only x = false ->
         (forall t', In t' (g_targets g) -> t_label t' = t_label t -> t_label (gc_sibling g t') = t_label t) ->
         ~ In (t_label t) removed
-        /\ (forall t' f, find_target g (t_label t) = Some t' -> In f (t_srcs t') -> ~ In f srcs)).
+        /\ (forall t' f, find_target g (t_label t) = Some t' -> In f (t_srcs t') -> ~ In f srcs))
+  (* (4) the roots are enumerated over ALL packages of the graph.  gc.go never sees the graph's package store,
+         it ranges over the copy PackageMap() builds (a Go map keyed by a string; key regenerated from
+         graph.go / build_label.go).  For EVERY history ps of AddPackage calls on a new graph that did not
+         panic, every order vals in which graph.packages.Values() lists the store, and well-formed names
+         (wf_pkg: a host package's name does not begin with '@'; a subrepo's name has no "//" and no trailing
+         "/"): the values of PackageMap() are exactly the packages that were added, one entry per key ... *)
+  /\ (forall ps st vals, add_packages ps = Some st -> Permutation st vals -> (forall p, In p ps -> wf_pkg p = true) ->
+        (forall p, In p (pm_values (package_map vals)) <-> In p ps)
+        /\ (forall p, In p ps -> In (pkgmap_key_of p, p) (package_map vals))
+        /\ NoDup (map fst (package_map vals))
+        /\ length (package_map vals) = length ps)
+  (*     ... hence (1) and (2) hold with Kept / Kept1 read on the graph whose packages are ALL the packages ever
+         added (every subinclude of every one of them is a root, a named //pkg/... names the targets of every
+         one it includes), while gc runs on what PackageMap() hands out *)
+  /\ (forall ts ps st vals a removed srcs,
+        add_packages ps = Some st -> Permutation st vals -> (forall p, In p ps -> wf_pkg p = true) ->
+        gc (G ts (pm_values (package_map vals))) a = Some (removed, srcs) ->
+        ((forall r, In r removed ->
+            exists t, In t ts /\ t_label t = r /\ ~ Kept1 (G ts ps) a (t_label (gc_sibling (G ts ps) t)))
+         /\ (forall f, In f srcs -> forall k t, Kept1 (G ts ps) a k -> find_target (G ts ps) k = Some t -> ~ In f (t_srcs t)))
+        /\ (defect_class (G ts (pm_values (package_map vals))) a = None ->
+            safe_targets (G ts ps) a removed /\ safe_sources (G ts ps) a srcs)).
 
 Theorem C25_partial : C25_partial_statement.
-Proof. exact (conj gc_safe_unless_defect (conj gc_safe_one_round (conj public_deps_exact chain_test_not_removed))). Qed.
+Proof.
+  exact (conj gc_safe_unless_defect (conj gc_safe_one_round (conj public_deps_exact (conj chain_test_not_removed
+        (conj package_map_exact
+              (fun ts ps st vals a removed srcs Hadd Hperm Hwf Hgc =>
+                 conj (gc_safe_one_round_all_packages ts ps st vals a Hadd Hperm Hwf removed srcs Hgc)
+                      (gc_safe_unless_defect_all_packages ts ps st vals a Hadd Hperm Hwf removed srcs Hgc))))))).
+Qed.
 Print Assumptions C25_partial.
 
 (* Non-vacuity.  The graph of gc_test.go is outside every defect class, has targets kept and removed;
@@ -82,6 +111,25 @@ Example C25_foreign_link_witness :
    /\ option_map (map t_label) (public_deps (fuel_of w_foreign) w_foreign c_ktest) = Some [lq "lib" "_other#lib"])
   /\ ~ Kept w_foreign no_args (lq "lib" "k_test").
 Proof. exact (conj w_foreign_gc w_foreign_not_kept). Qed.
+
+(* (4) is not vacuous: the subrepo third_party has a package lib, as the host repository has; only the host
+   package lib subincludes //build_defs:defs.  Five AddPackage calls succeed, the names are well-formed, the
+   copy has five entries ("lib" and "@third_party//lib" among its keys), and //build_defs:defs stays - with
+   //lib/... named, so do the targets of the host package lib *)
+Example C25_nonvacuous_all_packages :
+  add_packages sh_ps = Some sh_ps /\ forallb wf_pkg sh_ps = true
+  /\ map fst (package_map sh_ps) = [s "app"; s "lib"; s "build_defs"; s "old"; s "@third_party//lib"]
+  /\ gc (gc_view (all_pkgs sh_ts sh_ps)) no_args = Some ([lq "lib" "api"; lq "lib" "codec"; lq "old" "junk"], [])
+  /\ gc (gc_view (all_pkgs sh_ts sh_ps)) (A [] [lq "lib" "..."] [] [] false) = Some ([lq "old" "junk"], []).
+Proof. exact w_shadow_ok. Qed.
+
+(* ... and what (4) excludes: a copy keyed by the package name alone has four entries for the five packages,
+   the host package lib is gone, and //build_defs:defs - subincluded by it alone - is proposed for removal *)
+Example C25_by_name_witness :
+  length (package_map_by_name sh_ps) = 4%nat
+  /\ gc (G sh_ts (pm_values (package_map_by_name sh_ps))) no_args
+     = Some ([lq "build_defs" "defs"; lq "build_defs" "helpers"; lq "lib" "api"; lq "lib" "codec"; lq "old" "junk"], []).
+Proof. exact w_shadow_by_name_loses. Qed.
 
 Example C25_sibling_witness :
   gc w_sibling no_args = Some ([lp "gen"; lp "gen_go"], []) /\ Kept w_sibling no_args (lp "gen_go").
